@@ -50,6 +50,13 @@ TARGETS = [
     dict(name="vanilla_decrypt_client_header", file="src/vanilla_header/decrypt.rs", fn="decrypt_client_header", kind="method", fields=[("half", "opaque")], helpers=[],
          externs={"self.decrypt": ("ext_raw", "self.half")}, ret="N * N",
          opt_calls={"ClientHeader::from_array": ("tr_vanilla_client_header_from_array", "hdr")}),
+    # the two methods of the combined objects that have a body of their own instead of delegating to the half
+    dict(name="vanilla_crypto_decrypt_client_header", file="src/vanilla_header/mod.rs", fn="decrypt_client_header", kind="method", fields=[("half", "opaque")], helpers=[],
+         externs={"self.decrypt": ("ext_raw", "self.half")}, ret="N * N", structs={"ClientHeader": ["size", "opcode"]},
+         opt_calls={"ClientHeader::from_array": ("tr_vanilla_client_header_from_array", "hdr")}),
+    dict(name="wrath_server_crypto_decrypt_client_header", file="src/wrath_header/mod.rs", fn="decrypt_client_header", kind="method", fields=[("decrypt", "opaque")], helpers=[],
+         externs={"self.decrypt": ("ext_apply", "self.decrypt")}, ret="N * N",
+         opt_calls={"ClientHeader::from_array": ("tr_vanilla_client_header_from_array", "hdr")}),
     dict(name="tbc_encrypt_server_header", file="src/tbc_header/encrypt.rs", fn="encrypt_server_header", kind="method", fields=[("half", "opaque")], helpers=[],
          externs={"self.encrypt": ("ext_raw", "self.half")}, ret=("arr", "u8")),
     dict(name="tbc_encrypt_client_header", file="src/tbc_header/encrypt.rs", fn="encrypt_client_header", kind="method", fields=[("half", "opaque")], helpers=[],
